@@ -30,7 +30,15 @@ Definition eq_os (a b : option pystr) := match a, b with Some x, Some y => eqs x
 ALPHA = ["a", ".", "/", "~", "\\", "é"]
 HOSTILE_PARTS = ["..", ".", "", "a", "b.ics", ".Radicale.cache", ".Radicale.props", ".Radicale.lock", ".Radicale.tmp-x",
                  "x~", "~", ".hidden", "a\\b", "éè", "%2e%2e", "..%2f", "c:", "a b", "item", "sync-token",
-                 "‮", "a" * 40, "...", ". .", "..a", "a..", "\t", "user"]
+                 "‮", "a" * 40, "...", ". .", "..a", "a..", "\t", "user",
+                 # characters that Unicode normalisation / case folding turns into '.', '/', '\\', '~' (a fold AFTER the
+                 # safety check re-creates the refused names), composed vs decomposed spellings
+                 "\u2025", "\u2024\u2024", "\uff0e\uff0e", "\u2025\uff0f\u2025\uff0fdecoy.txt", "\uff0eRadicale.props", "\uff0ehidden.ics",
+                 "\u2024Radicale.cache", "x\uff5e", "b.ics\uff5e", "a\uff0fb", "a\uff3cb", "\u2026", "\ufe52\ufe52", "cafe\u0301", "caf\u00e9",
+                 "\u2025\u2215decoy.txt", "\u017f", "\u212a"]
+UNICODE_FIXED = ["/user/cal/\u2025\uff0f\u2025\uff0f\u2025\uff0fdecoy.txt", "/user/cal/\uff0eRadicale.props", "/user/cal/e1.ics\uff5e",
+                 "/user/cal/\uff0ehidden.ics", "/user/\uff0e\uff0e/\uff0e\uff0e/decoy.txt", "/\u2025/decoy.txt", "/user/cal/\u2025",
+                 "/user/cal/\u2024Radicale.cache\uff0fitem\uff0fe1.ics", "/user/cal/a\uff3c\u2025\uff3cdecoy.txt", "/user/cal/cafe\u0301.ics"]
 
 
 def small_strings(maxlen):
@@ -106,7 +114,7 @@ def run(ctx):
     L = ctx.n(5, 6)
     strings = list(small_strings(L))
     rnd = [random_path(ctx.rng) for _ in range(ctx.n(1500, 20000))]
-    allstr = strings + rnd
+    allstr = strings + rnd + [s_ for s_ in UNICODE_FIXED] + [s_.strip("/") for s_ in UNICODE_FIXED]
     root = tempfile.mkdtemp(prefix="rv-c06root-")
     # reserved names that already EXIST below the root (cache folders, editor backups, hidden files)
     for d in (".Radicale.cache", "a/.Radicale.cache/item", "a/b.ics~dir", ".hidden", "a/.Radicale.tmp-x"):
@@ -255,11 +263,11 @@ def hostile_strings(rng, base, n):
              "/user/cal/`touch %s`.ics" % (base + "/pwned"), "/user/cal/a b.ics", "/user/cal/x'y.ics", '/user/cal/x"y.ics',
              "/user/cal/x|y&z.ics", "/user/cal/e1.ics~", "/user/cal/.secret.ics", "/user/cal/.Radicale.props",
              "/user/cal/.Radicale.cache/item/e1.ics", "/user/cal/.Radicale.cache/history/e1.ics"]
-    out = list(fixed)
+    out = list(fixed) + list(UNICODE_FIXED)          # the fixed strings are always all there
     while len(out) < n:
         out.append(random_path(rng))
     rng.shuffle(out)
-    return out[:n] if n < len(out) else out
+    return out
 
 
 def trace_check(ctx):
